@@ -266,7 +266,13 @@ def pair_cases(draw, curved):
     R = S.base_radius(nk)
     config = draw(st.sampled_from(["cross", "cross", "cross", "nested", "apart", "identical", "rotated", "shared"]
                                   if not curved else ["cross", "cross", "cross", "nested", "apart", "identical", "rotated"]))
-    a = draw(S.simple_curve(nk, deg, (0.0, 0.0), 0.45 * R, R, draw(st.booleans()), templates=not curved))
+    if curved and draw(st.integers(0, 4)) == 0:
+        # exactly axis-parallel straight edges against curved segments
+        w, h = R * draw(st.sampled_from([0.6, 0.8, 1.0])), R * draw(st.sampled_from([0.5, 0.7, 0.9]))
+        num = (lambda v: F(v).limit_denominator(64)) if nk == "frac" else float
+        a = rg.polygon_curve([(num(-w), num(-h)), (num(w), num(-h)), (num(w), num(h)), (num(-w), num(h))])
+    else:
+        a = draw(S.simple_curve(nk, deg, (0.0, 0.0), 0.45 * R, R, draw(st.booleans()), templates=not curved))
     if config == "identical":
         b = [list(seg) for seg in a]
     elif config == "rotated":
